@@ -43,7 +43,11 @@ TECHNIQUE = ('trace-oracle property-based testing: Hypothesis-generated typed mi
 RULE = ('programs over int/float/bool/str/list/tuple values drawn from the kind-disciplined generator in vf/c19.py (plain, chained and '
         'tuple/list-pattern assignment incl. nested patterns, re-assignment with another type, if/elif/else, counter-bounded while, '
         'for over range/literals/variables, break/continue/early return, nested functions up to 2 levels reading and nonlocal-'
-        'rebinding enclosing variables, calls to typed/untyped external functions and annotated/unannotated local functions, '
+        'rebinding enclosing variables (declaration at the top of the function or later, also inside an if/else/while/for block; '
+        'rebinding with another type when the defining function does not use the variable after the call), local functions '
+        'defined in branches / loop bodies and called where their def does not dominate (start of the loop body, after the '
+        'join; behind a flag set after the def), redefinitions of a local function name with the same signature, '
+        'calls to typed/untyped external functions and annotated/unannotated local functions, '
         'conditional and boolean expressions as sources of "unknown"), each run on 2-4 typed input tuples. One evaluation = one '
         '(program, input) execution. Non-trivial = at least one annotated occurrence was observed at run time AND some variable '
         'took >= 2 distinct run-time types over the inputs / across a join; distinct by SHA1 of (source, inputs, resolver options).')
@@ -59,6 +63,12 @@ ASSUMPTIONS = [
     'are not checked (annotation convention)',
     'local functions are called by their own name (no aliasing, no escaping closures, no recursion); no with/try/global/lambda/'
     'comprehension (outside the quantified domain)',
+    'a nonlocal declaration may stand anywhere before the first use of the name in the function (CPython: it applies to the whole '
+    'function scope); the instrumented copy that CPython executes declares the names at the top of the function so that its entry '
+    'probes may read them - same bindings, the analysed tree keeps the declaration in place',
+    'a local function that rebinds a variable of its defining function with a value of another type is called by a call statement '
+    'outside loops, and the defining function then neither uses that variable nor calls a function capturing it again (what the '
+    'parent believes after such a call is finding F22; what the function itself and its children infer is checked)',
     'shapes of listed findings are excluded by construction (coverage.classes excluded:*); see replays/C19',
 ]
 LEVEL_TEXT = ('Randomised exploration of program x input space with CPython itself as the reference for run-time types; every explored '
@@ -78,12 +88,17 @@ LEVEL_NOTE = ('Trusted: CPython, the test-side truthful resolver and instrumente
 #   no_augassign_typed                  augmented assignment only on never-typed names (F20b_augassign_keeps_old_type)
 #   no_nonlocal_retype                  a local function rebinds a nonlocal name only with a value of the same exact type
 #                                       (F22_nonlocal_rebind_*: parent keeps the stale type; F31_nonlocal_read_at_loop_head_*: the
-#                                       function's own analysis forgets the closure type of names it rebinds)
+#                                       function's own analysis forgets the closure type of names it rebinds - repaired).
+#                                       Narrowed in round 2: re-typing stays in the search when the rebound variable belongs to the
+#                                       defining function and that function never uses it again after the call (classes
+#                                       has:nonlocal_retype_unobserved_by_parent, has:call_of_nonlocal_retyper)
 #   no_child_capture_of_nonlocal_bound  a function nested in one that rebinds nonlocal x does not read x (F21c_*)
 #   no_sibling_local_calls              a local function calls only its own children (F32_sibling_*, F32b_*)
 #   no_starred_target                   no starred unpacking targets (F34_starred_target_gets_element_type)
 #   no_store_to_var_captured_by_callee  a statement does not store to a variable captured by a local function it calls
-#                                       (F33_closure_types_taken_after_the_calling_statement)
+#                                       (F33_closure_types_taken_after_the_calling_statement); also: a redefinition of g does not
+#                                       capture a variable that an earlier `x = g()` stores to (in a loop that statement runs the
+#                                       new definition from the second iteration on)
 EXCL = ('no_unknown_store_to_typed_name', 'no_for_target_typed', 'no_augassign_typed', 'no_nonlocal_retype',
         'no_sibling_local_calls', 'no_starred_target',  # no_child_capture_of_nonlocal_bound: F21c fixed in /repo
 
@@ -181,6 +196,14 @@ def _in_universe(t):
   return t in _SAMPLES
 
 
+def _comparable(t):
+  """Types whose values compare / negate to a bool whenever the operation completes: the universe, the class tuple (opaque pair)
+  and tuples of these (a pair typed only as `tuple` may itself be an element of a typed tuple)."""
+  if isinstance(t, tuple):
+    return all(_comparable(e) for e in t)
+  return t in _SAMPLES or t is tuple
+
+
 class TruthfulResolver(type_inference.Resolver):
 
   def __init__(self, namespace, arg_types, unknown_args=()):
@@ -264,7 +287,7 @@ class TruthfulResolver(type_inference.Resolver):
     self.queries += 1
     for s in [left] + list(right):
       for t in s:
-        if not (_in_universe(t) or t is tuple):
+        if not _comparable(t):
           return None
     return {bool}
 
@@ -274,7 +297,7 @@ class TruthfulResolver(type_inference.Resolver):
     if op is None:
       return None
     if isinstance(node.op, ast.Not):
-      return {bool} if all(_in_universe(t) or t is tuple for t in opnd) else None
+      return {bool} if all(_comparable(t) for t in opnd) else None
     out = set()
     for t in opnd:
       if not _in_universe(t):
@@ -349,14 +372,15 @@ def assign_ids(tree):
 
 
 def _free_vars(src, top):
-  """{function name: sorted free variable names} for every function nested in `top` (names are unique)."""
+  """{(function name, line of its def): sorted free variable names} for every function nested in `top` (a name may be
+  defined more than once: redefinitions)."""
   out = {}
 
   def rec(tab, inside):
     for ch in tab.get_children():
       if ch.get_type() == 'function':
         if inside:
-          out[ch.get_name()] = sorted(ch.get_frees())
+          out[(ch.get_name(), ch.get_lineno())] = sorted(ch.get_frees())
         rec(ch, inside or ch.get_name() == top)
 
   rec(symtable.symtable(src, '<c19>', 'exec'), False)
@@ -449,17 +473,46 @@ class _Instr(ast.NodeTransformer):
     for a in params:
       head.append(ast.Expr(_call('__o', ast.Constant(a._cid), ast.Name(id=a.arg, ctx=ast.Load()))))
     if name != self.top:
-      for fv in self.frees.get(name, ()):
+      for fv in self.frees.get((name, node.lineno), ()):
         probe = ast.Expr(_call('__c', ast.Constant(fid), ast.Constant(fv), ast.Name(id=fv, ctx=ast.Load())))
         head.append(ast.Try(body=[probe], handlers=[ast.ExceptHandler(type=ast.Name(id='NameError', ctx=ast.Load()), name=None,
                                                                       body=[ast.Pass()])], orelse=[], finalbody=[]))
+    # a nonlocal/global declaration placed in a nested block (if/while/for body) applies to the whole function scope; the
+    # entry probes read the declared names, so the executed copy declares them first (same binding semantics in CPython;
+    # the analysed tree keeps the declaration where the program has it)
+    late = _hoist_declarations(node)
     k = 0
     while k < len(node.body) and (isinstance(node.body[k], (ast.Nonlocal, ast.Global)) or (
         k == 0 and isinstance(node.body[k], ast.Expr) and isinstance(node.body[k].value, ast.Constant)
         and isinstance(node.body[k].value.value, str))):
       k += 1
-    node.body[k:k] = head
+    node.body[k:k] = late + head
     return node
+
+
+def _hoist_declarations(fn_node):
+  """Replaces the nonlocal/global statements of fn_node's own scope (wherever they are placed) by `pass` and returns them
+  (to be placed at the top of the function)."""
+  out = []
+
+  def rec(stmts, nested):
+    for k, s in enumerate(stmts):
+      if isinstance(s, (ast.FunctionDef, ast.AsyncFunctionDef, ast.ClassDef)):
+        continue
+      if isinstance(s, (ast.Nonlocal, ast.Global)):
+        if nested:
+          out.append(s)
+          stmts[k] = ast.copy_location(ast.Pass(), s)
+        continue
+      for f in ('body', 'orelse', 'finalbody'):
+        sub = getattr(s, f, None)
+        if isinstance(sub, list) and sub and isinstance(sub[0], ast.stmt):
+          rec(sub, True)
+      for h in getattr(s, 'handlers', None) or ():
+        rec(h.body, True)
+
+  rec(fn_node.body, True)
+  return out
 
 
 def instrument(tree, src, top):
@@ -708,6 +761,9 @@ class Var(object):
 class FnInfo(object):
   def __init__(self, name, params, ret_kind, ret_anno, scope):
     self.name, self.params, self.ret_kind, self.ret_anno, self.scope = name, params, ret_kind, ret_anno, scope
+    self.scopes = [scope]   # one Fn per definition of this name (redefinitions share the signature)
+    self.retypes = set()    # names of the defining function this one rebinds (nonlocal) with values of another type
+    self.call_targets = set()  # names stored by statements that call this function
     self.ncalls = 0
 
 
@@ -723,6 +779,16 @@ class Fn(object):
     self.bound = set()
     self.ret_kind = 'A'
     self.ret_anno = False
+    self.base = 0           # depth of this function's top-level block
+    self.late_nl = []       # nonlocal names not declared yet (declaration placed later in the body, maybe in a nested block)
+    self.hidden = set()     # own names a called local function may have rebound with another type: never used again here
+    self.hoist = []         # lines to put before the top-level statement under construction (guard initialisations)
+    self.guards = {}        # local function defined in a nested block -> flag variable that is True once the def ran
+    self.loops = []         # enclosing loops of the statement under construction: {'bound': set, 'early': [lines]}
+    self.blocks = []        # kinds of the enclosing compound-statement blocks ('if', 'else', 'while', 'for')
+    self.in_loop = False
+    self.taken = set()      # names earlier definitions of the same function name refer to (redefinitions)
+    self.is_redef = False
 
 
 class Gen(object):
@@ -791,6 +857,8 @@ class Gen(object):
     for name in sorted(fn.avail_free):
       if name not in fn.vars and name not in fn.nonlocal_names:
         out.append(fn.avail_free[name])
+    if fn.hidden:
+      out = [v for v in out if v.name not in fn.hidden]
     if pred is not None:
       out = [v for v in out if pred(v)]
     return out
@@ -804,16 +872,31 @@ class Gen(object):
         f = f.parent
     return v.name
 
-  def callable_fns(self, fn):
+  def callable_fns(self, fn, retypers=False):
+    """Local functions an expression of fn may call here. Functions that re-type a variable of fn (info.retypes) are only
+    called by a call statement outside loops (retypers=True), see stmt_funcdef."""
     out = [fn.funcs[n] for n in sorted(fn.funcs) if n in fn.bound]
     out += list(fn.avail_funcs)
-    if self.forbid:
-      out = [f for f in out if not (self.captured(f) & self.forbid)]
+    if retypers:
+      out = [f for f in out if not f.retypes or not fn.in_loop]
+    else:
+      out = [f for f in out if not f.retypes]
+    bad = self.forbid | fn.hidden
+    if bad:
+      out = [f for f in out if not (self.captured(f) & bad)]
     return out
+
+  def can_call(self, fn, info):
+    if self.captured(info) & fn.hidden:
+      return False
+    return not (info.retypes and fn.in_loop)
 
   @staticmethod
   def captured(info):
-    return set(info.scope.free_used) | set(info.scope.nonlocal_names)
+    out = set()
+    for sc in info.scopes:
+      out |= set(sc.free_used) | set(sc.nonlocal_names)
+    return out
 
   def begin_stmt(self, fn=None, targets=()):
     """Starts a storing statement: calls made by its right-hand side must not capture a name it stores to
@@ -823,6 +906,12 @@ class Gen(object):
     if targets and any(self.captured(f) & set(targets) for f in self.callable_fns(fn)):
       if not self.want('no_store_to_var_captured_by_callee', 50):
         self.forbid = set(targets)
+
+  def stores(self, names):
+    """The statement just built stores to `names`: remembered on every local function it calls (a later redefinition of such
+    a function inside a loop must not capture them, the calling statement runs it through the back edge: F33 again)."""
+    for f in self.called:
+      f.call_targets.update(names)
 
   def storable(self, v):
     """May the statement under construction store to existing variable v?"""
@@ -918,6 +1007,10 @@ class Gen(object):
     if args and self.chance(15):
       self.note('has:keyword_call')
       args = ['%s=%s' % (p[0], a) for p, a in zip(info.params, args)]
+    if info.retypes:
+      # from here on the parent's idea of these variables may be stale (F22): nothing of fn uses them again
+      fn.hidden |= info.retypes
+      self.note('has:call_of_nonlocal_retyper')
     return '%s(%s)' % (info.name, ', '.join(args))
 
   def kexpr(self, fn, kind, d):
@@ -1070,7 +1163,9 @@ class Gen(object):
     name = None
     if fn.parent is not None and role == 'local' and self.chance(12):
       # shadow an enclosing variable this function (and its children so far) never referenced
-      cands = [n for n in sorted(fn.avail_free) if n not in fn.free_used and n not in fn.nonlocal_names and n not in fn.vars]
+      pending = set(v.name for v in fn.late_nl)
+      cands = [n for n in sorted(fn.avail_free) if n not in fn.free_used and n not in fn.nonlocal_names and n not in fn.vars
+               and n not in pending and n not in fn.taken]
       if cands:
         name = self.pick(cands)
         self.note('has:shadowing')
@@ -1090,8 +1185,8 @@ class Gen(object):
     return q
 
   def assignable(self, fn, pred):
-    out = [v for n, v in sorted(fn.vars.items()) if v.role in ('local', 'param') and pred(v)]
-    out += [v for n, v in sorted(fn.nonlocal_names.items()) if pred(v)]
+    out = [v for n, v in sorted(fn.vars.items()) if v.role in ('local', 'param') and n not in fn.hidden and pred(v)]
+    out += [v for n, v in sorted(fn.nonlocal_names.items()) if n not in fn.hidden and pred(v)]
     return out
 
   def rhs_for(self, fn, v, d):
@@ -1116,8 +1211,10 @@ class Gen(object):
       v2 = self.new_var(fn, self.generalize(kind), kn)
       fn.bound.update([v.name, v2.name])
       self.note('has:chained_assign')
+      self.stores([v.name, v2.name])
       return ['%s = %s = %s' % (v.name, v2.name, e)]
     fn.bound.add(v.name)
+    self.stores([v.name])
     return ['%s = %s' % (v.name, e)]
 
   def stmt_assign_existing(self, fn, d, only=None):
@@ -1127,6 +1224,7 @@ class Gen(object):
     v = self.pick(cands)
     self.begin_stmt(fn, [v.name])
     e = self.rhs_for(fn, v, 2)
+    self.stores([v.name])
     self.forbid = set()
     fn.bound.add(v.name) if v.name in fn.vars else None
     self.note('stmt:reassign')
@@ -1199,6 +1297,7 @@ class Gen(object):
         self.note('has:chain_name_first')
         line = '%s = %s = %s' % (t.name, pat, e)
     fn.bound.update(n for n in names if n in fn.vars)
+    self.stores(names)
     return [line]
 
   def stmt_if(self, fn, depth, in_loop):
@@ -1209,12 +1308,16 @@ class Gen(object):
     for k in range(nb):
       fn.bound = set(saved)
       c = self.cond(fn, 2)
+      fn.blocks.append('if')
       body, t = self.block(fn, depth + 1, self.i(1, 3), in_loop)
+      fn.blocks.pop()
       lines += ['%s %s:' % ('if' if k == 0 else 'elif', c)] + ['  ' + l for l in body]
       branches.append((fn.bound, t))
     if self.chance(55):
       fn.bound = set(saved)
+      fn.blocks.append('else')
       body, t = self.block(fn, depth + 1, self.i(1, 3), in_loop)
+      fn.blocks.pop()
       lines += ['else:'] + ['  ' + l for l in body]
       branches.append((fn.bound, t))
     else:
@@ -1240,10 +1343,21 @@ class Gen(object):
     if self.chance(20):
       test = '%s and %s' % (test, self.cond(fn, 1))
     saved = set(fn.bound)
-    body, _ = self.block(fn, depth + 1, self.i(1, 3), True)
+    body = self.loop_body(fn, depth, 'while')
     fn.bound = saved
     lines += ['while %s:' % test, '  %s = %s + 1' % (ctr.name, ctr.name)] + ['  ' + l for l in body]
     return lines, False
+
+  def loop_body(self, fn, depth, kind):
+    """Body of a loop. A local function defined in it may also be called at the start of the body, guarded by its flag: from the
+    second iteration on that call site is reached by the definition only through the back edge (the def does not dominate it)."""
+    loop = {'bound': set(fn.bound), 'early': [], 'nl': set(fn.nonlocal_names)}
+    fn.loops.append(loop)
+    fn.blocks.append(kind)
+    body, _ = self.block(fn, depth + 1, self.i(1, 3), True)
+    fn.blocks.pop()
+    fn.loops.pop()
+    return loop['early'] + body
 
   def stmt_for(self, fn, depth):
     self.note('stmt:for')
@@ -1284,64 +1398,105 @@ class Gen(object):
       tgt, names = v.name, [v.name]
     saved = set(fn.bound)
     fn.bound.update(n for n in names if n in fn.vars)
-    body, _ = self.block(fn, depth + 1, self.i(1, 3), True)
+    self.stores(names)
+    body = self.loop_body(fn, depth, 'for')
     fn.bound = saved
     return ['for %s in %s:' % (tgt, it)] + ['  ' + l for l in body], False
 
-  def stmt_funcdef(self, fn):
+  def stmt_funcdef(self, fn, redef=None):
+    """def of a new local function, or (redef = FnInfo) another definition of an existing name with the same signature."""
     self.nfn += 1
     self.note('stmt:def')
-    g = Fn('g%d' % self.nfn, fn, fn.level + 1)
+    g = Fn(redef.name if redef is not None else 'g%d' % self.nfn, fn, fn.level + 1)
+    g.base = 1
+    if redef is not None:
+      g.is_redef = True
+      for sc in redef.scopes:
+        g.taken |= set(sc.free_used) | set(sc.nonlocal_names) | set(sc.vars)
+      self.note('has:redefinition')
     hide_nl = bool(fn.nonlocal_names) and not self.want('no_child_capture_of_nonlocal_bound', 100)
     for v in self.readable(fn):
       if hide_nl and v.name in fn.nonlocal_names:
         continue
+      if redef is not None and v.name in redef.call_targets:
+        # `x = g()` earlier in a loop body would run this definition from the second iteration on
+        if 'no_store_to_var_captured_by_callee' in self.excl:
+          self.note('excluded:no_store_to_var_captured_by_callee')
+          continue
+        self.note('shape:no_store_to_var_captured_by_callee')
       g.avail_free[v.name] = v
     sibs = self.callable_fns(fn)
     if sibs and self.want('no_sibling_local_calls', 40):
       g.avail_funcs = sibs
     params, psrc = [], []
-    for _ in range(self.i(0, 2)):
-      pname = self.fresh('p')
-      if self.chance(60):
-        kind = self.pick(['I', 'F', 'B', 'S', 'L', ('O', 2)])
-        g.vars[pname] = Var(pname, kind, 'K', 'param', g)
-        self.kn['%s:%s' % (self.qual(g), pname)] = 'K'
-        params.append((pname, kind, True))
-        psrc.append('%s: %s' % (pname, CLSNAME[kind]))
-      else:
-        kind = self.pick(['N', 'A', 'S', 'I'])
-        g.vars[pname] = Var(pname, kind, 'U', 'param', g)
-        self.kn['%s:%s' % (self.qual(g), pname)] = 'U'
-        params.append((pname, kind, False))
-        psrc.append(pname)
-      g.bound.add(pname)
-    nl = []
+    if redef is not None:
+      for pname, kind, typed in redef.params:
+        g.vars[pname] = Var(pname, kind, 'K' if typed else 'U', 'param', g)
+        params.append((pname, kind, typed))
+        psrc.append(('%s: %s' % (pname, CLSNAME[kind])) if typed else pname)
+        g.bound.add(pname)
+    else:
+      for _ in range(self.i(0, 2)):
+        pname = self.fresh('p')
+        if self.chance(60):
+          kind = self.pick(['I', 'F', 'B', 'S', 'L', ('O', 2)])
+          g.vars[pname] = Var(pname, kind, 'K', 'param', g)
+          self.kn['%s:%s' % (self.qual(g), pname)] = 'K'
+          params.append((pname, kind, True))
+          psrc.append('%s: %s' % (pname, CLSNAME[kind]))
+        else:
+          kind = self.pick(['N', 'A', 'S', 'I'])
+          g.vars[pname] = Var(pname, kind, 'U', 'param', g)
+          self.kn['%s:%s' % (self.qual(g), pname)] = 'U'
+          params.append((pname, kind, False))
+          psrc.append(pname)
+        g.bound.add(pname)
+    nl, retyped = [], set()
     for v in [g.avail_free[n] for n in sorted(g.avail_free)]:
-      if len(nl) >= 2 or v.role not in ('local', 'param') or v.kn == 'W' or not self.chance(25):
+      if len(nl) >= 2 or v.role not in ('local', 'param') or v.kn == 'W' or v.name in g.taken or not self.chance(30):
         continue
       safe = is_exact(v.kind) or (v.kn == 'U' and 'no_unknown_store_to_typed_name' in self.excl)
-      if not safe and not self.want('no_nonlocal_retype', 60):
-        continue
+      if not safe:
+        if self.want('no_nonlocal_retype', 60):
+          pass
+        elif v.kn == 'K' and v.owner is fn and redef is None and self.chance(60):
+          # F22 is about what the *parent* believes after the call. Narrower shape kept in the search: g may re-type a variable
+          # of its defining function fn if fn never uses that variable again once g was called (g is called by call
+          # statements outside loops only; call_src then hides the variable from fn, callable_fns/can_call stop every
+          # function capturing it). What g itself and its children infer about the variable is checked as usual.
+          retyped.add(v.name)
+        else:
+          continue
       nl.append(v)
+    late = [v for v in nl if self.chance(45)]
     for v in nl:
-      g.nonlocal_names[v.name] = v
+      if v in late:
+        # declared later in the body, possibly inside an if/while/for block: not usable in g before that point
+        g.late_nl.append(v)
+        g.avail_free.pop(v.name, None)
+      else:
+        g.nonlocal_names[v.name] = v
       f = fn
       while f is not None and f is not v.owner:   # the name passes through the enclosing functions
         f.free_used.add(v.name)
         f = f.parent
     if nl:
       self.note('has:nonlocal')
-    if self.chance(60):
+    if retyped:
+      self.note('has:nonlocal_retype_unobserved_by_parent')
+    if redef is not None:
+      g.ret_kind, g.ret_anno = redef.ret_kind, redef.ret_anno
+    elif self.chance(60):
       g.ret_kind, g.ret_anno = self.pick(['I', 'F', 'B', 'S', 'L', ('O', 2)]), True
     else:
       g.ret_kind, g.ret_anno = self.pick(['N', 'A', ('T', 'N', 'S'), 'A']), False
     head = 'def %s(%s)%s:' % (g.name, ', '.join(psrc), (' -> ' + CLSNAME[g.ret_kind]) if g.ret_anno else '')
     body = []
-    if nl:
-      body.append('nonlocal ' + ', '.join(v.name for v in nl))
+    first = [v for v in nl if v not in late]
+    if first:
+      body.append('nonlocal ' + ', '.join(v.name for v in first))
     pre = []
-    for v in nl:
+    for v in first:
       if self.chance(70):
         pre += self.stmt_assign_existing(g, 2, only=[v])
     lines, term = self.block(g, 1, self.i(1, 4), False, top=True)
@@ -1349,35 +1504,167 @@ class Gen(object):
       lines = lines + pre if not term else pre + lines
     else:
       lines = pre + lines
+    while g.late_nl:
+      forced = self.forced_late_nonlocal(g)
+      lines = lines + forced if not term else forced + lines
+    if not term:
+      # a use of the variable after the block that holds its declaration (also reached on the paths that skip the block)
+      for v in late:
+        if v.kn in ('K', 'U') and self.chance(65):
+          self.begin_stmt()
+          t = self.new_var(g, self.generalize(v.kind), v.kn)
+          g.bound.add(t.name)
+          self.note('has:read_after_late_nonlocal')
+          lines = lines + ['%s = %s' % (t.name, self.use(g, v))]
     body += [l for l in lines if l != 'pass' or len(lines) == 1]
     if not term:
       body += self.finish(g)
-    info = FnInfo(g.name, params, g.ret_kind, g.ret_anno, g)
-    fn.funcs[g.name] = info
+    if redef is None:
+      info = FnInfo(g.name, params, g.ret_kind, g.ret_anno, g)
+      info.retypes = retyped
+      fn.funcs[g.name] = info
+    else:
+      redef.scopes.append(g)
     fn.bound.add(g.name)
     return [head] + ['  ' + l for l in body], False
 
-  def stmt_funcdef_in_block(self, fn):
-    """A local function defined inside a branch / loop body, usually called right there."""
+  def stmt_late_nonlocal(self, fn):
+    """The nonlocal declaration of pending names, here (wherever `here` is: function body or a nested block), usually followed
+    by a store. The declaration applies to the whole function whatever block holds it."""
+    n = 2 if len(fn.late_nl) > 1 and self.chance(30) else 1
+    vs = [fn.late_nl.pop(self.i(0, len(fn.late_nl) - 1)) for _ in range(n)]
+    where = fn.blocks[-1] if fn.blocks else 'body'
+    self.note('has:late_nonlocal')
+    self.note('has:late_nonlocal_in_' + where)
+    info_retyped = [v for v in vs if not is_exact(v.kind) and v.kn == 'K']
+    if info_retyped:
+      self.note('has:late_nonlocal_of_retyped_in_' + where)
+    lines = ['nonlocal ' + ', '.join(v.name for v in vs)]
+    for v in vs:
+      fn.nonlocal_names[v.name] = v
+    for v in vs:
+      if self.chance(85):
+        lines += self.stmt_assign_existing(fn, 2, only=[v])
+    return lines
+
+  def forced_late_nonlocal(self, fn):
+    """A compound statement whose body holds the still pending nonlocal declaration(s)."""
+    fn.in_loop = False
+    r = self.i(0, 9)
+    saved = set(fn.bound)
+    if r < 5:
+      head, kind = ['if %s:' % self.cond(fn, 1)], 'if'
+    elif r < 7:
+      ctr = self.fresh('i')
+      head, kind = ['%s = 0' % ctr, 'while %s < %d:' % (ctr, self.i(0, 2)), '  %s = %s + 1' % (ctr, ctr)], 'while'
+    elif r < 9:
+      head, kind = ['for %s in range(%d):' % (self.fresh('u'), self.i(0, 2))], 'for'
+    else:
+      head, kind = ['if %s:' % self.cond(fn, 1), '  pass', 'else:'], 'else'
+    fn.blocks.append(kind)
+    inner = self.stmt_late_nonlocal(fn)
+    fn.blocks.pop()
+    fn.bound = saved
+    return head + ['  ' + l for l in inner]
+
+  def retype_captured(self, fn, info):
+    """A store to a variable of fn that info reads, with a value of possibly another type ([] if there is none)."""
+    mine = set(v.name for v in self.assignable(fn, lambda v: v.kn == 'K' and not is_exact(v.kind)))
+    names = sorted(set(n for sc in info.scopes for n in sc.free_used if n in mine))
+    if not names:
+      return []
+    name = self.pick(names)
+    v = fn.vars.get(name) or fn.nonlocal_names.get(name)
+    if v is None:
+      return []
+    return self.stmt_assign_existing(fn, 2, only=[v])
+
+  def guarded_call(self, fn, info):
+    """`if flag: g(...)` for a local function defined in a nested block that is over (its def does not dominate this call)."""
+    if not self.can_call(fn, info):
+      return []
+    saved = set(fn.bound)
+    fn.blocks.append('if')
+    inner = self.stmt_call(fn, 1, info)[0]
+    fn.blocks.pop()
+    fn.bound = saved
+    self.note('has:guarded_call_def_not_dominating')
+    return ['if %s:' % fn.guards[info.name]] + ['  ' + l for l in inner]
+
+  def early_call(self, fn, info, loop):
+    """A call at the start of an enclosing loop body of a function (re)defined further down in that body: from the second
+    iteration on it runs the definition made by the previous iteration."""
+    saved, saved_in = fn.bound, fn.in_loop
+    fn.bound, fn.in_loop = set(loop['bound']), True
+    # names whose nonlocal declaration was placed further down in the body cannot be used textually before it
+    undeclared = (set(fn.nonlocal_names) - loop['nl']) - fn.hidden
+    fn.hidden |= undeclared
+    lines = []
+    if self.can_call(fn, info):
+      if info.name in fn.bound:
+        lines = self.stmt_call(fn, 1, info)[0]
+        self.note('has:call_before_redefinition_in_loop_body')
+      elif info.name in fn.guards:
+        lines = ['if %s:' % fn.guards[info.name]] + ['  ' + l for l in self.stmt_call(fn, 1, info)[0]]
+        self.note('has:call_before_def_in_loop_body')
+    fn.bound, fn.in_loop = saved, saved_in
+    fn.hidden -= undeclared
+    loop['early'] += lines
+
+  def stmt_funcdef_in_block(self, fn, redef=None):
+    """A local function defined inside a branch / loop body, usually called right there. Its definition does not dominate
+    what follows the block (nor, in a loop, the start of the body): such call sites are guarded by a flag set after the def."""
     self.note('has:def_in_nested_block')
-    lines, _ = self.stmt_funcdef(fn)
-    if self.chance(75):
-      lines = lines + self.stmt_call(fn, 1, fn.funcs[lines[0].split('(')[0][4:]])[0]
+    lines, _ = self.stmt_funcdef(fn, redef)
+    info = redef if redef is not None else fn.funcs[lines[0].split('(')[0][4:]]
+    if redef is None:
+      flag = self.fresh('fl')
+      fn.guards[info.name] = flag
+      fn.hoist.append('%s = False' % flag)
+      lines = lines + ['%s = True' % flag]
+    if self.chance(75) and self.can_call(fn, info):
+      lines = lines + self.stmt_call(fn, 1, info)[0]
+    if fn.loops:
+      if self.chance(60):
+        lines = lines + self.retype_captured(fn, info)
+      if self.chance(70):
+        self.early_call(fn, info, self.pick(fn.loops))
     return lines, False
+
+  def compound(self, fn, thunk, in_loop):
+    """A compound statement; a function defined in one of its blocks may be called after it, behind its flag."""
+    before = set(fn.guards)
+    lines, term = thunk()
+    fn.in_loop = in_loop
+    new = [n for n in sorted(fn.guards) if n not in before]
+    if new and not term and self.chance(60):
+      info = fn.funcs[self.pick(new)]
+      if self.chance(60):
+        lines = lines + self.retype_captured(fn, info)
+      lines = lines + self.guarded_call(fn, info)
+    return lines, term
 
   def finish(self, fn):
     """Pending calls of never-called local functions, then the final return."""
     lines = []
-    for n in sorted(fn.funcs):
-      if fn.funcs[n].ncalls == 0 and n in fn.bound:
-        lines += self.stmt_call(fn, 1, fn.funcs[n])[0]
+    fn.in_loop = False
+    for n in sorted(fn.funcs, key=lambda n: (bool(fn.funcs[n].retypes), n)):
+      info = fn.funcs[n]
+      if info.ncalls:
+        continue
+      if not self.can_call(fn, info):
+        self.note('has:local_function_never_called')
+      elif n in fn.bound:
+        lines += self.stmt_call(fn, 1, info)[0]
+      elif n in fn.guards:
+        lines += self.guarded_call(fn, info)
     lines.append('return %s' % self.expr(fn, fn.ret_kind, '*', 2))
     return lines
 
   def stmt_call(self, fn, d, info=None):
     self.begin_stmt()
     if info is None:
-      info = self.pick(self.callable_fns(fn))
+      info = self.pick(self.callable_fns(fn, retypers=True))
     call = self.call_src(fn, info, 2)
     r = self.i(0, 9)
     if r < 5:
@@ -1397,6 +1684,7 @@ class Gen(object):
       self.note('has:any_typed_result')
     if v.name in fn.vars:
       fn.bound.add(v.name)
+    self.stores([v.name])
     return ['%s = %s' % (v.name, call)], False
 
   def stmt_retype_call(self, fn, d):
@@ -1404,9 +1692,9 @@ class Gen(object):
     mine = set(v.name for v in self.assignable(fn, lambda v: v.kn == 'K' and not is_exact(v.kind)))
     for n in sorted(fn.funcs):
       info = fn.funcs[n]
-      if n not in fn.bound:
+      if n not in fn.bound or not self.can_call(fn, info):
         continue
-      for name in sorted(info.scope.free_used):
+      for name in sorted(set(x for sc in info.scopes for x in sc.free_used)):
         if name in mine:
           v = fn.vars.get(name) or fn.nonlocal_names.get(name)
           if v is not None:
@@ -1431,9 +1719,13 @@ class Gen(object):
     self.begin_stmt(fn, [v.name])
     self.note('stmt:augassign')
     if v.kind == 'S':
-      return ['%s += %s' % (v.name, self.expr(fn, v.kind, '*', 1))]
+      e = self.expr(fn, v.kind, '*', 1)
+      self.stores([v.name])
+      return ['%s += %s' % (v.name, e)]
     rk = 'I' if v.kind == 'I' else 'N'
-    return ['%s %s= %s' % (v.name, self.pick(['+', '-', '*']), self.expr(fn, rk, '*', 1))]
+    op, e = self.pick(['+', '-', '*']), self.expr(fn, rk, '*', 1)
+    self.stores([v.name])
+    return ['%s %s= %s' % (v.name, op, e)]
 
   def stmt_substore(self, fn, d):
     ls = self.readable(fn, lambda v: v.kind == 'L' and v.kn in ('K', 'U'))
@@ -1446,20 +1738,32 @@ class Gen(object):
   def stmt(self, fn, depth, in_loop, top):
     nest_ok = depth < self.max_depth
     self.forbid, self.called = set(), []
+    fn.in_loop = in_loop
     opts = [(5, lambda: (self.stmt_assign_new(fn, 2), False)),
             (6, lambda: (self.stmt_assign_existing(fn, 2), False)),
             (3, lambda: (self.stmt_unpack(fn, 2), False)),
             (1, lambda: (self.stmt_augassign(fn, 2), False)),
             (1, lambda: (self.stmt_substore(fn, 2), False))]
     if nest_ok:
-      opts += [(4, lambda: self.stmt_if(fn, depth, in_loop)),
-               (2, lambda: self.stmt_while(fn, depth)),
-               (2, lambda: self.stmt_for(fn, depth))]
-    if top and fn.level < 2 and self.nfn < self.max_fns:
-      opts.append((4 if fn.level == 0 else 2, lambda: self.stmt_funcdef(fn)))
-    elif depth == 1 and fn.level < 2 and self.nfn < self.max_fns:
-      opts.append((1, lambda: self.stmt_funcdef_in_block(fn)))
-    if self.callable_fns(fn):
+      opts += [(4, lambda: self.compound(fn, lambda: self.stmt_if(fn, depth, in_loop), in_loop)),
+               (2, lambda: self.compound(fn, lambda: self.stmt_while(fn, depth), in_loop)),
+               (2, lambda: self.compound(fn, lambda: self.stmt_for(fn, depth), in_loop))]
+    if fn.level < 2 and self.nfn < self.max_fns:
+      redefs = [fn.funcs[n] for n in sorted(fn.funcs) if n in fn.bound and not fn.funcs[n].retypes]
+      if top:
+        opts.append((4 if fn.level == 0 else 2, lambda: self.stmt_funcdef(fn)))
+        if redefs:
+          opts.append((2, lambda: self.stmt_funcdef(fn, self.pick(redefs))))
+      elif 1 <= depth - fn.base <= 2:
+        opts.append((2, lambda: self.stmt_funcdef_in_block(fn)))
+        if redefs:
+          opts.append((4, lambda: self.stmt_funcdef_in_block(fn, self.pick(redefs))))
+    if fn.late_nl:
+      opts.append((6 if depth > fn.base else 2, lambda: (self.stmt_late_nonlocal(fn), False)))
+    waiting = [fn.funcs[n] for n in sorted(fn.guards) if n not in fn.bound and self.can_call(fn, fn.funcs[n])]
+    if waiting:
+      opts.append((2, lambda: (self.guarded_call(fn, self.pick(waiting)), False)))
+    if self.callable_fns(fn, retypers=True):
       opts.append((4, lambda: self.stmt_call(fn, 2)))
     if fn.funcs:
       opts.append((4, lambda: self.stmt_retype_call(fn, 2)))
@@ -1475,6 +1779,9 @@ class Gen(object):
       n -= 1
       self.budget -= 1
       ls, term = self.stmt(fn, depth, in_loop, top)
+      if top and fn.hoist:
+        lines += fn.hoist
+        fn.hoist = []
       lines += ls
     if not lines:
       lines = ['pass']
